@@ -99,7 +99,9 @@ def gen_plan(seed, index, tier):
             n_boot = rng.choice([2, 2, 3, 3, 4])
     plan = {
         "v": 1, "n": n, "nsf": nsf, "ncf": ncf, "feats": feats, "ypred": ypred, "varying": varying, "form": form,
-        "metrics": metrics, "quantiles": qs, "n_boot": n_boot, "rs": rng.randint(0, 2**31 - 1),
+        "metrics": metrics, "quantiles": qs, "n_boot": n_boot,
+        # integer seeds including the boundary values 0 and 2**32 - 1
+        "rs": rng.choice([0, 0, 1, 2**32 - 1]) if rng.random() < 0.15 else rng.randint(0, 2**31 - 1),
         "container": rng.choice(["df", "dict", "array"]),
         "ambient": [rng.choice(["reseed", "consume"]), rng.randint(0, 2**31 - 1)], "other_rs": rng.randint(0, 2**31 - 1),
         "fresh": bool(TIERS[tier].get("fresh_every") and index % TIERS[tier]["fresh_every"] == 0),
